@@ -5,6 +5,7 @@ import (
 	"fmt"
 	"math/big"
 	"sort"
+	"time"
 	"unsafe"
 
 	vmcommon "github.com/ElrondNetwork/elrond-vm-common"
@@ -282,7 +283,9 @@ func c13Profiles(tier Tier) []*explore.Profile {
 			e0 := h.fresh()
 			for i, sd := range seeds {
 				if i < 2 {
-					h.others = append(h.others, uni.Seed(e0, sd))
+					if sb := uni.SeedBuilder(e0, sd); sb.Failed == "" {
+						h.others = append(h.others, sb.W)
+					}
 				}
 			}
 		}
@@ -411,9 +414,46 @@ func reconfigurationDeterminism(tier Tier) ([]Viol, map[string]interface{}) {
 	return viols, map[string]interface{}{"instances_per_history": n, "configuration_histories": len(variants), "classes": len(classes), "executions": execs}
 }
 
+// seedConstructionDeterminism: every seed recipe (a fixed list of real calls from the empty world)
+// is executed on a freshly built set of function objects and again on a set that has just executed
+// all the other recipes; the two results must be identical (earlier unrelated calls on the same
+// function objects must not matter).
+func seedConstructionDeterminism() []Viol {
+	names := []string{"fung", "sft", "mixed", "frozen", "aliased", "refunds", "refunds-with-call", "handover"}
+	var viols []Viol
+	used, err := world.NewEnv(ledgerEnv(2))
+	if err != nil {
+		panic(err)
+	}
+	for round := 0; round < 2; round++ {
+		for _, n := range names {
+			fresh, _ := world.NewEnv(ledgerEnv(2))
+			a, b := uni.SeedBuilder(fresh, n), uni.SeedBuilder(used, n)
+			same := a.Failed == b.Failed
+			if same && a.Failed == "" {
+				same = a.W.Hash(true) == b.W.Hash(true)
+			}
+			if !same {
+				viols = append(viols, Viol{Property: "C13", Clause: "determinism", Sig: "seed-recipe:" + n + ":differs-on-used-function-objects",
+					Detail: fmt.Sprintf("the recipe of seed %q (real calls from the empty world) gives a different result on function objects that have executed other recipes before than on freshly built ones (fresh: %q, used: %q)", n, a.Failed, b.Failed),
+					Kind:   "case", Replay: "seed-recipe:" + n})
+				return viols
+			}
+		}
+	}
+	return viols
+}
+
 // C13 decides "execution is deterministic and does not modify its input".
 func C13(tier Tier) int {
 	PendingViolations["C13"], PendingCoverage["C13"] = nil, nil
+	if sv := seedConstructionDeterminism(); len(sv) > 0 {
+		// the searches below build their seeds on shared function objects: with this violation they
+		// cannot be set up reliably, and the violation is already established
+		o := &Outcome{Property: "C13", Tier: tier, Level: "model_checking", Start: time.Now(), Violations: sv,
+			Coverage: map[string]interface{}{"states": 0, "transitions": 0, "traces_validated_against_impl": 0, "exhaustive": false, "stopped_after": "seed-recipe determinism", "samples": []interface{}{"seed recipes on fresh and on used function objects"}}}
+		return Finish(o)
+	}
 	if rv, cov := reconfigurationDeterminism(tier); true {
 		PendingViolations["C13"] = rv
 		PendingCoverage["C13"] = map[string]interface{}{"reconfiguration_determinism": cov}
